@@ -3,7 +3,7 @@
 set -e
 patch=$(realpath "$1"); shift
 d=$(mktemp -d /tmp/mut-XXXXXX)
-rsync -a --exclude target --exclude .git /repo/ $d/
+rsync -a --exclude target --exclude .git ${MUT_BASE:-/repo}/ $d/
 (cd $d && patch -p1 -s < "$patch")
 for p in "$@"; do
   echo "--- $p"
